@@ -837,6 +837,20 @@ def placeholder_rule(ctx, rid):
     uf = [(n, c) for n, c, nm in all_calls(ctx, pr, g) if nm == CR + "._unflatten" and n.id in fl.visited]
     if len(uf) == 0:
         raise AnalysisError("idiom changed: with cases and nested output no _unflatten call is reachable in %s itself (the nesting was moved into a helper)" % pr.qualname)
+    if len(uf) > 1:
+        # calls in different arms of one `if` exclude each other: which arm runs with cases is then a matter of a test the
+        # flow analysis could not decide, not of nesting twice
+        def arms(c_):
+            out_ = []
+            ch_, p_ = c_, getattr(c_, "_parent", None)
+            while p_ is not None:
+                if isinstance(p_, ast.If):
+                    out_.append((id(p_), "t" if any(ch_ is b_ for b_ in p_.body) else "f"))
+                ch_, p_ = p_, getattr(p_, "_parent", None)
+            return out_
+        A_ = [dict(arms(c_)) for _, c_ in uf]
+        if all(any(k_ in b_ and a_[k_] != b_[k_] for k_ in a_) for i_, a_ in enumerate(A_) for b_ in A_[i_ + 1:]):
+            raise AnalysisError("idiom changed: with cases %d _unflatten calls in mutually exclusive arms are reachable in %s; which one runs is decided by a test the analysis does not evaluate" % (len(uf), pr.qualname))
     if len(uf) != 1:
         rr.bad(ctx.finding(rid, pr, pr.node, "with cases and nested output %d _unflatten calls are reachable" % len(uf), construct="unflatten-count"), "one unflatten")
         return rr
